@@ -302,3 +302,8 @@ def check(run, prog, tier):
     run.ob("C17-f", "absent-candidates-recorded", not bad and bool(recs), "every failed candidate is recorded before the next one is tried (%d open sites)" % len(opens) if not bad and recs else
            ("after the failed open() at line %s the search goes on (path %s) without recording the candidate: a header created there later is not noticed by load_binary()" % bad[0] if bad else "inc_open records nothing"),
            io.file, bad[0][0] if bad else io.line, "inc_open", what="inc_open does not record the include candidates that did not exist")
+
+    # ---- C17-g the patch list that save_binary()/load_binary() walk names the right words
+    import rules.unitsrule as unitsrule
+    unitsrule.check(run, prog, "C17-g", lambda f, text: "A_PATCH" in text or "patch" in text or f.file.endswith("binaries.c"), 3,
+                    "the patch list / function tables written to the binary are addressed in the wrong unit: load_binary() relocates other words than save_binary() recorded and the loaded program differs from the compiled one")
